@@ -43,7 +43,7 @@ class C01(Check):
     assumptions = ['python floats are modelled as exact reals (REAL mode): rounding is outside the claim',
                    'beta >= 0 as the property states']
     outside_claim = ['binary64 rounding', 'T,K beyond the stated bounds', 'the Numba-compiled kernel '
-                     '(exercised only on replayed witnesses)', 'uint16 successor storage (K >= 65536)']
+                     '(exercised only on replayed witnesses)', 'K >= 65536 (the uint16 successor table; unsigned stores are modelled as wrapping)']
     canary = {'what': 'label_switching_cost[i] -> label_switching_cost[i+1] in the candidate totals',
               'edits': [('fast_ticc/cluster_label_assignment.py',
                          'total_vals = future_cost_vals[i+1] + label_assignment_cost[i+1] + label_switching_cost[i]',
@@ -70,6 +70,9 @@ class C01(Check):
                                    witness_every=(1 if K ** T <= 8 else 7 if not big else 211)))
         for (T, K) in [(2, 2), (3, 2)] + ([(3, 3)] if tier == 'thorough' else []):
             cfgs.append(Config('both_forms_T%d_K%d' % (T, K), self.both_forms, {'T': T, 'K': K}))
+        # many clusters: the successor table must hold indices up to K-1 (K = 300 > 2^8)
+        for K in ([300] if tier == 'quick' else [300, 1000]):
+            cfgs.append(Config('kernel_wide_K%d' % K, self.wide, {'K': K}, witness_every=1))
         for (T, K) in [(2, 2), (3, 2)] + ([(3, 3), (4, 2)] if tier == 'thorough' else []):
             for form in ('vector', 'scalar'):
                 cfgs.append(Config('predict_T%d_K%d_%s' % (T, K, form), self.predict,
@@ -106,6 +109,43 @@ class C01(Check):
         c.prove('reported_cost_is_cost_of_returned_path', pc == R(true_cost))
         qc = path_cost(cost, beta, q, T, K)
         c.prove('optimal_vs_any_rival', qc >= R(true_cost))
+
+    def wide(self, c, K):
+        """T = 2 with K in the hundreds: all but four cost entries are one concrete (expensive)
+        value, so the kernel's per-cluster decisions collapse to a handful of paths, while the
+        indices that flow through the successor table are large."""
+        Rp = self.R
+        T = 2
+        hi, hi2, lo = K - 20, K - 10, 3
+        vals = [[1000.0] * K for _ in range(T)]
+        sym = {}
+        for (i, k) in ((0, lo), (0, hi), (1, hi), (1, hi2)):
+            sym[(i, k)] = c.real('c_%d_%d' % (i, k), -50, 50)
+            vals[i][k] = sym[(i, k)]
+        cost = np.ndarray._new([vals[i][k] for i in range(T) for k in range(K)], (T, K), np.float64, owner='caller')
+        cost._b.writeable = False
+        b = c.real('b', 0)
+        beta = [b] * T
+        c.notes.update({'T': T, 'K': K, 'form': 'scalar', 'wide': [lo, hi, hi2]})
+        ok, res = guarded(c, 'labels_valid', Rp.cla.assign_point_cluster_labels, cost, b)
+        if not ok:
+            return
+        path, true_cost = res
+        c.outputs['path'] = list(path)
+        c.outputs['cost'] = true_cost
+        valid = [len(path) == T] + [z3.And(I(p) >= 0, I(p) < K) for p in path]
+        if not c.prove('labels_valid', conj(valid)):
+            return
+        # only the four symbolic entries and one representative expensive cluster can be optimal
+        cand = [lo, hi, hi2, 0]
+
+        def cst(seq):
+            t = [R(select([cost[i, k] for k in range(K)], seq[i])) for i in range(T)]
+            t.append(z3.If(I(seq[0]) != I(seq[1]), R(b), z3.RealVal(0)))
+            return rsum(t)
+        c.prove('reported_cost_is_cost_of_returned_path', cst(path) == R(true_cost))
+        q = [c.int('q_%d' % i, 0, K - 1) for i in range(T)]
+        c.prove('optimal_vs_any_rival', cst(q) >= R(true_cost))
 
     def both_forms(self, c, T, K):
         Rp = self.R
